@@ -1,6 +1,7 @@
 package main
 
 import (
+	"fmt"
 	"go/ast"
 	"go/types"
 	"sort"
@@ -271,6 +272,69 @@ func rulePositionNeedsSpatial(c *Ctx) {
 				ofg := graph(fi.Decl.Body)
 				if ol := ofg.LocOfOuter(lit); ol.Valid() {
 					okk, why = spatialAt(ofg, ol, e)
+				}
+			}
+			if !okk {
+				// a parameter: every call in the fence evaluation passes an object that is known to have a position there
+				if id, isId := ast.Unparen(e).(*ast.Ident); isId {
+					sig := fi.Obj.Type().(*types.Signature)
+					for i := 0; i < sig.Params().Len(); i++ {
+						if sig.Params().At(i) != info.ObjectOf(id) {
+							continue
+						}
+						sites, all := 0, true
+						for _, caller := range reach {
+							cinfo := caller.Info()
+							var cfgc *FlowGraph
+							ast.Inspect(caller.Decl.Body, func(n ast.Node) bool {
+								cc, ok := n.(*ast.CallExpr)
+								if !ok || callee(cinfo, cc) != fi.Obj || i >= len(cc.Args) {
+									return true
+								}
+								sites++
+								if enclosingFuncLit(c.Program, cc) != nil {
+									all = false
+									return true
+								}
+								if cfgc == nil {
+									cfgc = newFlowGraph(cinfo, caller.Decl.Body)
+								}
+								cl := cfgc.LocOfOuter(cc)
+								good := false
+								if cl.Valid() {
+									for _, f := range cfgc.DominatingFacts(cl) {
+										if f.Neg {
+											continue
+										}
+										fc, ok := ast.Unparen(f.E).(*ast.CallExpr)
+										if !ok {
+											continue
+										}
+										g := callee(cinfo, fc)
+										if g != nil && g.Name() == "objIsSpatial" && len(fc.Args) == 1 {
+											if gc, ok := ast.Unparen(fc.Args[0]).(*ast.CallExpr); ok {
+												if se2, ok := ast.Unparen(gc.Fun).(*ast.SelectorExpr); ok && se2.Sel.Name == "Geo" && sameExpr(cinfo, se2.X, cc.Args[i]) {
+													good = true
+												}
+											}
+										}
+										if g != nil && g.Name() == "IsSpatial" {
+											if se2, ok := ast.Unparen(fc.Fun).(*ast.SelectorExpr); ok && sameExpr(cinfo, se2.X, cc.Args[i]) {
+												good = true
+											}
+										}
+									}
+								}
+								if !good {
+									all = false
+								}
+								return true
+							})
+						}
+						if sites > 0 && all {
+							okk, why = true, fmt.Sprintf("a parameter: at each of the %d calls the argument is dominated by a spatial test", sites)
+						}
+					}
 				}
 			}
 			c.check(okk, key, call.Pos(), why, "the position of "+exprStr(e)+", which may be the previous value of the id, is used although nothing establishes that it has one: for a value stored with SET … STRING, Center() and Rect() are the zero point and Distance() is 0, so the fence treats it as an object at 0N 0E (neighbours of that point reported 'faraway', a 'cross' for fences between that point and the new position)")
